@@ -302,6 +302,8 @@ pub fn walk_check(inp: &CheckInputs) -> Expect {
             e.complete = true;
             return e;
         }
+        // arbitrary bytes: the model cannot follow (only generated where no model is consulted)
+        BodyView::Unknown => return e,
         BodyView::Doc(x) => x,
     };
     e.doc = Some(doc.clone());
